@@ -32,7 +32,7 @@ RULE = (
     "random programs of 3-14 path objects (1-4 subpaths each: m l c v y h re; painted by S s f f* B B* b b* or ended by n, "
     "optionally clipped W/W*) interleaved with q Q cm w d and colour operators g G rg RG k K cs CS sc scn SC SCN (Device "
     "spaces and ICCBased N=1/3/4, DeviceN with 1/3/4 names); dyadic operands; CTMs incl. rotations by 90, reflections, "
-    "shears, scalings; in 30% of the cases the judged page follows another page (leaving w, d, colours behind) in the same interpreter and must equal the page interpreted alone. distinct = distinct content bytes; non-trivial = >=2 painted subpaths and >=6 distinct operators. "
+    "shears, scalings; in 30% of the cases the judged page follows another page (leaving w, d, colours behind) in the same interpreter and must equal the page interpreted alone; a quarter of the pages also carry one glyph and are read through extract_pages with laparams None / default / boxes_flow=None / all_texts, which must deliver the same shapes; ColorSpace resources include parameterless families spelled as one-element arrays. distinct = distinct content bytes; non-trivial = >=2 painted subpaths and >=6 distinct operators. "
     "Not generated (statement silent / ISO forbids): graphics-state operators inside a path object, segments after h without "
     "a new m, a painted path consisting of a single m, degenerate rectangles are class-agnostic, 'm l h' is class-agnostic "
     "(line or curve), colour spaces with other component counts, Pattern/Separation spaces, cs/CS not followed by a colour."
@@ -48,9 +48,11 @@ SHARD_TIMEOUT = {"quick": 600, "thorough": 5400}
 def minimums(tier: str) -> Dict[str, int]:
     if tier == "quick":
         return {"evaluations": 1400, "distinct": 1300, "shapes_compared": 12000, "class:line": 800, "class:rect": 1200,
-                "class:curve": 3000, "n_ended_paths": 800, "seen:operators": 35, "colours_asserted": 8000, "pages_judged_after_an_earlier_page": 350}
+                "class:curve": 3000, "n_ended_paths": 800, "seen:operators": 35, "colours_asserted": 8000, "pages_judged_after_an_earlier_page": 350,
+                "pages_through_layout_analysis:flow_none": 50, "pages_through_layout_analysis:default": 50, "pages_through_layout_analysis:all_texts": 50}
     return {"evaluations": 40000, "distinct": 38000, "shapes_compared": 350000, "class:line": 25000, "class:rect": 35000,
-            "class:curve": 90000, "n_ended_paths": 25000, "seen:operators": 35, "colours_asserted": 250000, "pages_judged_after_an_earlier_page": 10000}
+            "class:curve": 90000, "n_ended_paths": 25000, "seen:operators": 35, "colours_asserted": 250000, "pages_judged_after_an_earlier_page": 10000,
+            "pages_through_layout_analysis:flow_none": 1500, "pages_through_layout_analysis:default": 1500, "pages_through_layout_analysis:all_texts": 1500}
 
 
 def shards(tier: str, seed: int) -> List[Dict[str, Any]]:
@@ -230,7 +232,12 @@ def gen_case(seed_str: str, tier: str) -> Dict[str, Any]:
     for i in range(rng.choice([1, 2, 3])):
         ncomp = rng.choice([1, 3, 4])
         name = "Cs%d" % i
-        if rng.random() < 0.6:
+        r = rng.random()
+        if r < 0.25:
+            # a parameterless family spelled as a one-element array (8.6.3: "a name or an array whose first element is the family")
+            fam = {1: "DeviceGray", 3: "DeviceRGB", 4: "DeviceCMYK"}[ncomp]
+            csres[name] = [N(fam)] if rng.random() < 0.7 else doc.add([N(fam)])
+        elif r < 0.7:
             icc = doc.add(Stream({"N": ncomp}, b"\x00" * 16))
             csres[name] = [N("ICCBased"), icc] if rng.random() < 0.7 else doc.add([N("ICCBased"), icc])
         else:
@@ -242,6 +249,9 @@ def gen_case(seed_str: str, tier: str) -> Dict[str, Any]:
     g = Gen(rng, csn)
     ops = g.build(rng.randint(5, 16) if tier == "quick" else rng.randint(5, 30))
     content = b" ".join(emit_tokens(ops))
+    with_text = rng.random() < 0.25     # a glyph on the page: layout analysis then runs its full course around the shapes
+    if with_text:
+        content += b" BT /F1 8 Tf 5 5 Td (t) Tj ET"
     cat = doc.alloc()
     pages = doc.alloc()
     kids = []
@@ -252,14 +262,15 @@ def gen_case(seed_str: str, tier: str) -> Dict[str, Any]:
         before = b" ".join(emit_tokens(g0.build(rng.randint(4, 10)))) + b" 5 w [3 1] 2 d 0.5 0.25 0.75 RG 0.25 0.5 0 1 k"
         kids.append(doc.add({"Type": N("Page"), "Parent": pages, "MediaBox": [0, 0, 612, 792], "Resources": {"ColorSpace": csres},
                              "Contents": doc.add(Stream({}, before))}))
-    page = doc.add({"Type": N("Page"), "Parent": pages, "MediaBox": [0, 0, 612, 792], "Resources": {"ColorSpace": csres},
+    page = doc.add({"Type": N("Page"), "Parent": pages, "MediaBox": [0, 0, 612, 792],
+                    "Resources": {"ColorSpace": csres, "Font": {"F1": {"Type": N("Font"), "Subtype": N("Type1"), "BaseFont": N("Helvetica")}}},
                     "Contents": doc.add(Stream({}, content))})
     kids.append(page)
     doc.set(pages, {"Type": N("Pages"), "Kids": kids, "Count": len(kids)})
     doc.set(cat, {"Type": N("Catalog"), "Pages": pages})
     doc.trailer["Root"] = cat
     return {"pdf": doc.build(), "ops": ops, "content": content, "cs": {k: v for k, v in csn.items() if k.startswith("Cs")},
-            "pages_before": len(kids) - 1}
+            "pages_before": len(kids) - 1, "with_text": with_text, "laparams": rng.choice(["none", "default", "flow_none", "all_texts"])}
 
 
 def observe(pdf: bytes, last_only: bool = False) -> List[Any]:
@@ -276,6 +287,25 @@ def observe(pdf: bytes, last_only: bool = False) -> List[Any]:
         it.process_page(page)
     lt = dev.get_result()
     return [x for x in lt if isinstance(x, LTCurve)]
+
+
+def observe_layout(pdf: bytes, which: str) -> List[Any]:
+    from pdfminer.high_level import extract_pages
+    from pdfminer.layout import LAParams, LTContainer, LTCurve
+
+    la = {"none": None, "default": LAParams(), "flow_none": LAParams(boxes_flow=None), "all_texts": LAParams(all_texts=True)}[which]
+    pages = list(extract_pages(io.BytesIO(pdf), laparams=la))
+    out: List[Any] = []
+
+    def walk(it: Any) -> None:
+        if isinstance(it, LTCurve):
+            out.append(it)
+        elif isinstance(it, LTContainer):
+            for c in it:
+                walk(c)
+
+    walk(pages[-1])
+    return out
 
 
 def fl(p: Any) -> Tuple[float, float]:
@@ -317,6 +347,18 @@ def compare(case: Dict[str, Any], rec: Any = None) -> List[Tuple[str, str]]:
             d = next((i for i, (a, b) in enumerate(zip(alone, got)) if sig(a) != sig(b)), min(len(alone), len(got)))
             return [("page_state_leak", "shape #%d of the page differs when an earlier page was interpreted first: alone %s, after %s" % (
                 d, sig(alone[d]) if d < len(alone) else None, sig(got[d]) if d < len(got) else None))]
+    if case.get("with_text"):
+        # the same shapes through extract_pages with layout analysis switched on: analysis regroups text only
+        lp = observe_layout(case["pdf"], case["laparams"])
+        if rec is not None:
+            rec.count("pages_through_layout_analysis:" + case["laparams"])
+
+        def sig2(x: Any) -> Any:
+            return (type(x).__name__, repr(x.pts), repr(x.linewidth), x.stroke, x.fill, x.evenodd, repr(x.stroking_color), repr(x.non_stroking_color))
+
+        if sorted(map(repr, map(sig2, lp))) != sorted(map(repr, map(sig2, got))):
+            return [("shapes_lost_in_layout:" + case["laparams"], "extract_pages(laparams=%s) yields %d shapes, the interpreter produced %d" % (
+                case["laparams"], len(lp), len(got)))]
     if len(got) != len(exp):
         return [("shape_count", "expected %d shapes, got %d; expected ops %s; got %s" % (
             len(exp), len(got), ["".join(s.ops) for s in exp][:12], [type(x).__name__ + ":%d" % len(x.pts) for x in got][:12]))]
